@@ -5,6 +5,7 @@ package main
 // declaration and comment the generator planted (bytes must be identical, whatever the script).
 
 import (
+	"sort"
 	"fmt"
 	"regexp"
 	"strings"
@@ -268,9 +269,15 @@ func runC13(c *Ctx) {
 			c.Inconclusive("server died on open")
 			return
 		}
-		for rel, ds := range decls {
+		dead := false
+		checkDecls := func(rel string, ds []c13Decl, dirty bool) {
 			c.Eval(1)
 			for _, d := range ds {
+				if dirty && !d.Local && !strings.HasPrefix(d.Kind, "member-") {
+					// globals of a buffer with unsaved edits are served from the tables of the last saved state (by design)
+					c.Count("dont_care_global_in_unsaved_buffer", 1)
+					continue
+				}
 				positions := [][2]int{{d.DeclLine, d.DeclCol + 1}}
 				for i := range d.UseLines {
 					positions = append(positions, [2]int{d.UseLines[i], d.UseCols[i]})
@@ -286,6 +293,7 @@ func runC13(c *Ctx) {
 					hv, _, err := srv.Hover(ws.URI(qrel), pos[0], pos[1])
 					if err != nil {
 						c.Inconclusive("server stopped answering (C01's business)")
+						dead = true
 						return
 					}
 					c.Count("hover_requests", 1)
@@ -296,7 +304,10 @@ func runC13(c *Ctx) {
 						where = "use-in-another-file"
 					}
 					cls := fmt.Sprintf("%s|%s|%s", d.Kind, d.Place, where)
-					witness := map[string]interface{}{"file": files[rel], "decl": d, "position": pos}
+					if dirty {
+						cls += "|unsaved-edit"
+					}
+					witness := map[string]interface{}{"file": files[rel], "decl": d, "position": pos, "unsaved_edit": dirty}
 					if hv == nil || strings.TrimSpace(hv.Contents.Value) == "" {
 						c.Report("hover-empty|"+cls, fmt.Sprintf("hover on %s (%s) at %s:%v returns nothing", d.Name, d.Kind, rel, pos), witness)
 						continue
@@ -346,6 +357,38 @@ func runC13(c *Ctx) {
 							fmt.Sprintf("hover on %s: documentation %q, expected %q", d.Name, truncate(strings.Join(got, " / "), 200), truncate(strings.Join(want, " / "), 200)), witness)
 					}
 				}
+			}
+		}
+		var rels []string
+		for rel := range decls {
+			rels = append(rels, rel)
+		}
+		sort.Strings(rels)
+		for _, rel := range rels {
+			checkDecls(rel, decls[rel], false)
+			if dead {
+				return
+			}
+		}
+		// an unsaved edit: the first document of the batch is replaced, in the editor only, by another generated text
+		// (other comments, other lines); hover must describe the buffer, not the file on disk
+		if len(rels) > 0 {
+			rel := rels[0]
+			var fi int
+			fmt.Sscanf(rel, "hov%d.lua", &fi)
+			txt2, ds2 := c13GenFile(root.Fork(uint64(fi)).Fork(0xd1), fi)
+			for di := range ds2 {
+				ds2[di].XLine = -1
+			}
+			if pr := RParse([]byte(txt2)); pr.Valid() {
+				srv.DidChangeFull(ws.URI(rel), 2, txt2)
+				if srv.Fence() != nil {
+					c.Inconclusive("server died on an unsaved edit (C01's business)")
+					return
+				}
+				files[rel] = txt2
+				c.Count("unsaved_edit_documents", 1)
+				checkDecls(rel, ds2, true)
 			}
 		}
 		if bi == 0 {
